@@ -234,3 +234,20 @@ PROPS['C11'] = dict(
     level_text="Lean 4 theorems: C11_literal_exact / C11_parseIntrinsic_exact (an accepted literal is exactly the standard conversion of the token consumed; a conversion error can only end in a diagnostic, never in a value), C11_deterministic (the outcome is a function of the source: scanner and parser communicate through one single-producer single-consumer FIFO), C11_scan_ordinal / C11_scan_integer / C11_scan_hex (the lexical rules for ALL digit strings), keyword/delimiter tokenisation, and the negative result C11_counterexample_rune_quote. Completeness of the parser for every derivation of the grammar is NOT proved; it is held by the correspondence run: the executable parser model and the real parser agree with the independently computed meaning on every generated derivation.",
     level_note="PARTIAL: parser completeness by correspondence only. strconv is the oracle for literal meaning (external). The grammar's undefined ESCAPE token is read as the scanner's escape set.",
 )
+
+PROPS['C10'] = dict(
+    id='C10', modules=['CollectionModel.Props.C10'],
+    key=lambda l: (l.get('k'), l.get('gen'), l.get('fmt'), (l.get('parse') or {}).get('out'), l.get('canon'), l.get('depth'), l.get('shape'), l.get('status'),
+                   min(len(l.get('leaves', [])), 12), min(len(l.get('text', [])) // 40, 10), tuple(sorted(set(x[0].get('t') for x in l.get('leaves', []))))),
+    nontrivial=lambda l: True, timeout=dict(quick=900, thorough=3000),
+    rule="cases = one value of the canonical universe pushed through the real FormatValue -> ParseSource -> CompareValues -> "
+         "FormatValue chain (value, text, token stream, strconv verdicts, parsed value, second text, equality), or one call "
+         "sequence on a single notation with failing calls in between, or one self-containing collection formatted in a "
+         "sacrificial child process: every float magnitude class and exponent form, subnormals, signed zero, all 64-bit integer "
+         "boundaries, every rune class, strings with escapes and invalid UTF-8, empty/singleton/multi-item collections of all seven "
+         "kinds nested to depth 0..4 with sizes 0..40 (queues within capacity), narrower numeric widths (text fixpoint only), nests "
+         "of depth 1..11 around the limit of 8, 30 call sequences, 5 cyclic shapes",
+    exhaustive_subspaces="every listed boundary leaf as the only item and as a pair of items of a List",
+    level_text="Lean 4 theorems: C10_format_total (the formatter model – kind dispatch, elision at the limit, empty marker, inline singleton one level deeper, multi-line arm, associations – returns for EVERY value with fuel 3*size+1: it terminates however deep or wide), C10_elides_at_limit (at the limit a collection is written [...](Ctx) without visiting its items, hence self-containing values are formatted in finitely many steps), C10_format_pure. The round-trip equation C10_roundtrip_statement is stated in full over the three executable models (formatter, scanner, parser) but NOT proved: it is held by the correspondence run, in which the formatter model reproduces the real text, the scanner model the real tokens and the parser model the real parsed value on every generated value, and the real chain gives back an equal value and the same text.",
+    level_note="PARTIAL: the round trip rests on correspondence + the executable spec, not on a Lean proof. strconv (FormatFloat/Quote/QuoteRune/ParseFloat/Unquote) is external: leaf texts are shipped with each case and checked by scanning them. Texts of unordered Maps are compared as multisets of lines. A fatal stack overflow cannot be modelled; the cyclic cases run in a child process.",
+)
